@@ -79,7 +79,14 @@ def r1_retransmission(ctx, F):
             rr = ot.reach([e[1] for e in some], cut_blocks=[s_.bb])
             oks = src.fields()[-1:] == ('.msgs_pending_ack',) and loop[-1].bb not in rr
             mv = ot.val(s_.args[2])
-            oks = oks and mv.kind == 'agg' and mv.key[2] == 'Deliver'
+            if mv.kind == 'agg':
+                okm = mv.key[2] == 'Deliver'
+            else:
+                # built earlier in the chain (`map(|..| (dst, Deliver(..))).for_each(|(d, m)| o.send(d, m))`)
+                from taint import origin_vals
+                mvs = origin_vals(ot, s_.args[2]) if s_.args[2].get('k') in ('copy', 'move') else set()
+                okm = bool(mvs) and all(v.kind == 'agg' and v.key[2] == 'Deliver' for v in mvs)
+            oks = oks and okm
     ctx.check(oks and not filt, rule, 'every-pending-entry-resent', ot,
               good='every entry of msgs_pending_ack is resent as Deliver(seq, msg) when the timer fires',
               bad='ActorWrapper::on_timeout does not resend every pending entry (loop over '
